@@ -11,12 +11,17 @@ from .. import astx
 
 OPS = ("==", "!=", "<", "<=", ">", ">=")
 TABLE = {"==": "=", "!=": "<>", "<": "<", "<=": "<=", ">": ">", ">=": ">="}
-INV = {"<": ">", "=": "=", ">": "<"}
+INV = {"<": ">", "=": "=", ">": "<", "u": "u"}
+# families whose operators are specified element-wise (`*lhs op *rhs`, `get<i>(v) op get<i>(w)`): the element type need not be
+# totally ordered (float NaN, sets under inclusion), so a fourth outcome 'u' (unordered: only != holds) is part of the domain
+PARTIAL_FAMILIES = ("optional", "optional-value", "variant")
 FUNCTOR_OP = {"equal_to": "==", "not_equal_to": "!=", "less": "<", "less_equal": "<=", "greater": ">", "greater_equal": ">="}
 
 
 def op_on(op, o):
-    """truth of `a op b` given ord(a,b) = o in '<','=','>'"""
+    """truth of `a op b` given ord(a,b) = o in '<','=','>' or 'u' (unordered: every operator but != is false)"""
+    if o == "u":
+        return op == "!="
     return o in TABLE[op]
 
 
@@ -488,7 +493,8 @@ def worlds(family, paths, eng_sides):
                     continue
                 yield World({}, {}, lex, size)
         return
-    for combo in itertools.product("<=>", repeat=len(ps)):
+    alphabets = [("<=>u" if family in PARTIAL_FAMILIES and p != ".index()" else "<=>") for p in ps]
+    for combo in itertools.product(*alphabets):
         ords = dict(zip(ps, combo))
         if eng_sides:
             for flags in itertools.product([False, True], repeat=len(eng_sides)):
